@@ -1,4 +1,5 @@
 import Ccp.Model.Typed
+import Ccp.Proofs.TreeForest
 /-!
 Helper lemmas for C05: the three loops of the typed extraction helpers as
 "first match" / "filter then map" over the visited list.
@@ -124,17 +125,6 @@ theorem root_eq_firstLoop (c : Ctx) (ty : Ty) (d : Arg) (u : Bool) :
 
 /-! ### the list loop -/
 
-/-- `mapM` in `Except`, written out (the first failing conversion aborts) -/
-def mapE {α β ε : Type} (f : α → Except ε β) : List α → Except ε (List β)
-  | [] => .ok []
-  | a :: as =>
-    match f a with
-    | .error e => .error e
-    | .ok b =>
-      match mapE f as with
-      | .error e => .error e
-      | .ok bs => .ok (b :: bs)
-
 theorem mapE_eq_mapM {α β ε : Type} (f : α → Except ε β) (l : List α) : mapE f l = l.mapM f := by
   induction l with
   | nil => rfl
@@ -183,51 +173,91 @@ theorem mapE_ok_length {α β ε : Type} (f : α → Except ε β) (l : List α)
         cases h
         simp [ih bs hbs]
 
-/-! ### the orders are ascending -/
+/-! ### the recursive order of a forest: the line, then its descendants in config order -/
 
-theorem children_sorted (t : T) (p : Nat) : (children t p).Pairwise (· < ·) := by
-  unfold children
-  exact List.Pairwise.filter _ List.pairwise_lt_range
+/-- specification: line `i`, then every line that has `i` on its ancestor chain, in config order -/
+def familyLines (t : T) (i : Nat) : List Nat :=
+  i :: (List.range t.size).filter (fun j => decide (i ∈ ancestors t j))
 
-theorem insertKeep_sorted (x : Nat) (l : List Nat) (h : l.Pairwise (· ≤ ·)) :
-    (insertKeep x l).Pairwise (· ≤ ·) ∧ ∀ y, y ∈ insertKeep x l ↔ y = x ∨ y ∈ l := by
+theorem order_eq_familyLines {t : T} (hf : Forest t) (i : Nat) : order t i true = familyLines t i := by
+  simp only [order, familyLines, if_true, allChildren_eq_filter hf i]
+
+theorem familyLines_sorted (t : T) (i : Nat) : (familyLines t i).Pairwise (· < ·) := by
+  refine List.pairwise_cons.mpr ⟨?_, List.Pairwise.filter _ List.pairwise_lt_range⟩
+  intro j hj
+  have := (List.mem_filter.mp hj).2
+  exact ancestors_lt (by simpa using this)
+
+theorem mem_familyLines {t : T} (hf : Forest t) (i j : Nat) :
+    j ∈ familyLines t i ↔ j = i ∨ IsAncestor t i j := by
+  simp only [familyLines, List.mem_cons, List.mem_filter, List.mem_range, decide_eq_true_eq]
+  constructor
+  · rintro (h | ⟨_, h⟩)
+    · exact .inl h
+    · exact .inr (isAncestor_of_mem h)
+  · rintro (h | h)
+    · exact .inl h
+    · have hm := mem_of_isAncestor hf h
+      exact .inr ⟨ancestors_lt_size hf hm, hm⟩
+
+/-- in a forest a line is a root iff its ancestor chain is empty -/
+theorem root_iff_no_ancestors {t : T} (hf : Forest t) (j : Nat) : parentOf t j = j ↔ ancestors t j = [] := by
+  have hle := parentOf_le_of_forest hf j
+  constructor
+  · intro h; exact ancestors_of_not_lt (by omega)
+  · intro h
+    by_cases hp : parentOf t j < j
+    · rw [ancestors_of_lt hp] at h; cases h
+    · omega
+
+/-! ### groupdict -/
+
+theorem firstSome_split (c : DCtx) (pre post : List Nat) (j : Nat)
+    (hpre : ∀ k ∈ pre, c.at k = none) : firstSome c (pre ++ j :: post) =
+      match c.at j with
+      | some rows => some rows
+      | none => firstSome c post := by
+  induction pre with
+  | nil => rfl
+  | cons a pre ih =>
+    have ha := hpre a (List.mem_cons_self ..)
+    simp only [List.cons_append, firstSome, ha]
+    exact ih (fun k hk => hpre k (List.mem_cons_of_mem _ hk))
+
+theorem firstSome_none (c : DCtx) (l : List Nat) (h : ∀ k ∈ l, c.at k = none) : firstSome c l = none := by
   induction l with
-  | nil => simp [insertKeep]
+  | nil => rfl
   | cons a l ih =>
-    have hl := (List.pairwise_cons.mp h).2
-    have ha := (List.pairwise_cons.mp h).1
-    obtain ⟨ihs, ihm⟩ := ih hl
-    by_cases hxa : x ≤ a
-    · simp only [insertKeep, hxa, if_true]
-      refine ⟨List.pairwise_cons.mpr ⟨?_, h⟩, by intro y; simp⟩
-      intro y hy
-      rcases List.mem_cons.mp hy with rfl | hy
-      · exact hxa
-      · exact Nat.le_trans hxa (ha y hy)
-    · simp only [insertKeep, hxa, if_false]
-      refine ⟨List.pairwise_cons.mpr ⟨?_, ihs⟩, ?_⟩
-      · intro y hy
-        rcases (ihm y).mp hy with rfl | hy
-        · omega
-        · exact ha y hy
-      · intro y
-        simp only [List.mem_cons, ihm]
-        constructor
-        · rintro (h | h | h)
-          · exact Or.inr (Or.inl h)
-          · exact Or.inl h
-          · exact Or.inr (Or.inr h)
-        · rintro (h | h | h)
-          · exact Or.inr (Or.inl h)
-          · exact Or.inl h
-          · exact Or.inr (Or.inr h)
+    simp only [firstSome, h a (List.mem_cons_self ..)]
+    exact ih (fun k hk => h k (List.mem_cons_of_mem _ hk))
 
-theorem sortKeep_sorted (l : List Nat) : (sortKeep l).Pairwise (· ≤ ·) := by
-  induction l with
-  | nil => exact List.Pairwise.nil
-  | cons a l ih => exact (insertKeep_sorted a _ ih).1
+theorem iterDict_recurse_eq (c : DCtx) (i : Nat) (d : Arg) :
+    reMatchIterDict c i d true = typedDict c d (firstSome c (order c.t i true)) := by
+  unfold reMatchIterDict order
+  simp only [if_true, firstSome]
+  cases c.at i <;> simp
 
-theorem allChildren_sorted (t : T) (i : Nat) : (allChildren t i).Pairwise (· ≤ ·) :=
-  sortKeep_sorted _
+/-! ### stale configs -/
+
+theorem rootLoopItems_committed (g : Str → GroupRes) (ip : Arg → Except Err Str) (t : T) (ty : Ty)
+    (l : List Str) (n : Nat) (h : t.texts.drop n = l) :
+    rootLoopItems g ip t ty ((l.zipIdx n).map (fun p => ({ text := p.1, id := some p.2 } : Edit.Item))) =
+      rootLoop { g := g, ip := ip, t := t } ty (List.range' n l.length) := by
+  induction l generalizing n with
+  | nil => rfl
+  | cons a l ih =>
+    have hhead : t.texts[n]? = some a := by
+      have := congrArg List.head? h
+      simpa [List.head?_drop] using this
+    have htail : t.texts.drop (n + 1) = l := by
+      have := congrArg List.tail h
+      simpa [List.tail_drop] using this
+    have hat : Ctx.at { g := g, ip := ip, t := t } n = g a := by
+      simp [Ctx.at, text, List.getD_eq_getElem?_getD, hhead]
+    simp only [List.zipIdx_cons, List.map_cons, rootLoopItems, itemIsRoot, List.length_cons, List.range'_succ,
+      rootLoop, hat, ih (n + 1) htail]
+    by_cases hr : parentOf t n = n
+    · simp [hr]
+    · simp [hr]
 
 end Ccp.Typed
